@@ -299,7 +299,9 @@ class RandomEviction(CacheEvictionPolicy):
         Args:
             seed: Random seed for reproducibility.
         """
-        self._keys: set[str] = set()
+        # Insertion-ordered (a dict, not a set): the victim is drawn by index, and
+        # the iteration order of a set of str depends on PYTHONHASHSEED.
+        self._keys: dict[str, None] = {}
         self._rng = random.Random(seed)
 
     def on_access(self, key: str) -> None:
@@ -307,18 +309,18 @@ class RandomEviction(CacheEvictionPolicy):
 
     def on_insert(self, key: str) -> None:
         """Track key."""
-        self._keys.add(key)
+        self._keys[key] = None
 
     def on_remove(self, key: str) -> None:
         """Remove key from tracking."""
-        self._keys.discard(key)
+        self._keys.pop(key, None)
 
     def evict(self) -> str | None:
         """Return a random key."""
         if not self._keys:
             return None
         key = self._rng.choice(list(self._keys))
-        self._keys.discard(key)
+        self._keys.pop(key, None)
         return key
 
     def clear(self) -> None:
